@@ -181,6 +181,13 @@ class Built:
         c = AffineCoordinates(AFFINE[coords](len(shape))) if coords else None
         self.data = Data(coords=c, label="d")
         self.keep = []
+        # round 3: re-use of link OBJECTS.  share=True: structurally equal subtrees of the
+        # expressions of a case are built ONCE and the link object is re-used as operand wherever
+        # the subtree occurs (left, right, both sides, nested); ["o", key] leaves stand for the link
+        # object that backs the derived component `key` (same value as ["k", key])
+        self.share = False
+        self.memo = {}
+        self.linkobj = {}
 
     def add_stored(self, key, spec):
         arr = make_array(spec, self.shape)
@@ -207,7 +214,17 @@ class Built:
             return const_value(t[1])
         if t[0] == "k":
             return self.cids[t[1]]
-        return OPS[t[1]](self.tree(t[2]), self.tree(t[3]))
+        if t[0] == "o":
+            return self.linkobj[t[1]]
+        if not self.share:
+            return OPS[t[1]](self.tree(t[2]), self.tree(t[3]))
+        key = repr(t)
+        link = self.memo.get(key)
+        if link is None:
+            link = OPS[t[1]](self.tree(t[2]), self.tree(t[3]))
+            if isinstance(link, ComponentLink):
+                self.memo[key] = link
+        return link
 
     def _new_cid(self, key, prefix):
         """The identifier of `key`: a derived component that is added *before* a component reading
@@ -220,6 +237,7 @@ class Built:
 
     def _add_link(self, link, cid, raw):
         self.keep.append(link)
+        self.linkobj[self.key_of(cid)] = link
         if raw:
             # what `data[label] = DerivedComponent(...)` / session loading / the component manager
             # do: Data.add_component with a ready DerivedComponent does not look at the inputs
@@ -340,7 +358,7 @@ class Reference:
     def tree(self, t):
         if t[0] == "c":
             return const_value(t[1])
-        if t[0] == "k":
+        if t[0] in ("k", "o"):
             return self.key(t[1])
         a, b = self.tree(t[2]), self.tree(t[3])
         with np.errstate(all="ignore"):
@@ -386,7 +404,9 @@ def lit_value(text):
 def sx_tree(t, T):
     if t[0] == "c":
         return ["c", T.tok(const_value(t[1]))]
-    if t[0] == "k":
+    if t[0] in ("k", "o"):
+        # a link OBJECT used as operand has the value of the derived component it backs: for the
+        # value model of these families it is that component
         return ["k", t[1]]
     return ["b", t[1], sx_tree(t[2], T), sx_tree(t[3], T)]
 
@@ -532,11 +552,11 @@ def rand_tree(rng, depth, leaves, ops, exp_leaves, no_div=False, top=True, const
 
 
 def has_key(t):
-    return t[0] == "k" or (t[0] == "b" and (has_key(t[2]) or has_key(t[3])))
+    return t[0] in ("k", "o") or (t[0] == "b" and (has_key(t[2]) or has_key(t[3])))
 
 
 def tree_keys(t):
-    if t[0] == "k":
+    if t[0] in ("k", "o"):
         return [t[1]]
     if t[0] == "b":
         return tree_keys(t[2]) + tree_keys(t[3])
@@ -556,6 +576,52 @@ def shrink_tree(t):
             yield ["b", t[1], c, t[3]]
         for c in shrink_tree(t[3]):
             yield ["b", t[1], t[2], c]
+
+
+def subtrees(t):
+    if t[0] == "b":
+        yield t
+        for c in (t[2], t[3]):
+            for x in subtrees(c):
+                yield x
+
+
+def objectify(rng, t, keys, p=0.5):
+    """Replace leaves ["k", key] (key in `keys`: derived components of the case) by ["o", key]: the
+    link OBJECT that backs the component is used as operand instead of its identifier."""
+    if t[0] == "k" and t[1] in keys and rng.random() < p:
+        return ["o", t[1]]
+    if t[0] == "b":
+        return ["b", t[1], objectify(rng, t[2], keys, p), objectify(rng, t[3], keys, p)]
+    return t
+
+
+def reuse_variant(rng, t, leaves, ops=("add", "sub", "mul")):
+    """Expressions in which a subtree of `t` occurs again — with hash-consing (`share`) the SAME
+    link object is then an operand in several places.  Returns (t', extra tree): t' re-uses a
+    subtree of t next to t itself (or twice), the extra tree has the subtree as LEFT or RIGHT
+    operand of a further expression."""
+    subs = list(subtrees(t))
+    s1 = rng.choice(subs)
+    r = rng.random()
+    if r < 0.3:
+        t2 = ["b", rng.choice(ops), t, s1]
+    elif r < 0.6:
+        t2 = ["b", rng.choice(ops), s1, t]
+    elif r < 0.75:
+        t2 = ["b", rng.choice(ops), s1, s1]
+    else:
+        t2 = t
+    s2 = rng.choice(subs)
+    leaf = ["k", rng.choice(leaves)]
+    q = rng.random()
+    if q < 0.45:
+        extra = ["b", rng.choice(ops), s2, leaf]
+    elif q < 0.8:
+        extra = ["b", rng.choice(ops), leaf, s2]
+    else:
+        extra = ["b", rng.choice(ops), s2, s1]
+    return t2, extra
 
 
 # ------------------------------------------------------------------------------------------
@@ -593,6 +659,7 @@ class WorldFamily(Family):
 
     def build(self, case):
         b = Built(case["shape"], case.get("coords"))
+        b.share = bool(case.get("share"))
         for key, spec in case["stored"]:
             b.add_stored(key, spec)
         for key, l in case["derived"]:
@@ -823,6 +890,21 @@ class ExprFam(WorldFamily):
             if t[0] != "b":
                 t = ["b", "add", t, ["k", rng.choice(leaves)]]
             # the tree may be the target itself or an input of a further derived component
+            share = rng.random() < 0.4
+            if share:
+                # round 3: link OBJECTS are re-used — equal subtrees are one object (hash-consing
+                # in Built.tree), derived inputs enter as the link object that backs them, and a
+                # second derived attribute is built on a subtree of the first
+                t = objectify(rng, t, (DERIVED0, DERIVED0 + 1))
+                t, ex = reuse_variant(rng, t, leaves)
+                extra = [[DERIVED0 + 5, ["B", t]], [DERIVED0 + 6, ["B", ex]]]
+                if rng.random() < 0.5:
+                    extra.append([DERIVED0 + 7, ["B", ["b", rng.choice(["add", "mul", "sub"]),
+                                                       ["o", rng.choice([DERIVED0 + 5, DERIVED0 + 6])], ["o", DERIVED0 + 5]]]])
+                target = rng.choice([e[0] for e in extra])
+                yield {"shape": sh, "coords": coords, "stored": stored, "derived": derived + extra,
+                       "view": rand_view(rng, sh), "target": target, "arith": self.arith, "share": True}
+                continue
             extra = [[DERIVED0 + 5, ["B", t]]]
             target = DERIVED0 + 5
             if rng.random() < 0.25:
@@ -865,9 +947,21 @@ class ULink(WorldFamily):
                 froms = [rng.choice(cands) for _ in range(USER_ARITY[f])]
             extra = [[DERIVED0 + 5, ["U", froms, f, rng.random() < 0.4]]]
             target = DERIVED0 + 5
-            if rng.random() < 0.2:
+            q = rng.random()
+            if q < 0.2:
                 extra.append([DERIVED0 + 6, ["B", ["b", "sub", ["k", DERIVED0 + 5], ["k", rng.choice(leaves)]]]])
                 target = DERIVED0 + 6
+            elif q < 0.55:
+                # round 3: the user-function link OBJECT itself is an operand (left / right / twice /
+                # nested); the function must still be called with exactly its own inputs afterwards
+                me, leaf = ["o", DERIVED0 + 5], ["k", rng.choice(leaves)]
+                op = rng.choice(["add", "sub", "mul"])
+                extra.append([DERIVED0 + 6, ["B", rng.choice([["b", op, me, leaf], ["b", op, leaf, me],
+                                                             ["b", op, me, me]])]])
+                if rng.random() < 0.4:
+                    extra.append([DERIVED0 + 7, ["B", ["b", rng.choice(["add", "sub", "mul"]), ["o", DERIVED0 + 6],
+                                                       rng.choice([me, ["k", rng.choice(leaves)]])]]])
+                target = rng.choice([e[0] for e in extra])
             yield {"shape": sh, "coords": coords, "stored": stored, "derived": derived + extra,
                    "view": rand_view(rng, sh), "target": target}
 
@@ -998,9 +1092,19 @@ class ParsedFam(WorldFamily):
             refs = [[lab, key] for lab, key in zip(labels, keys)]
             extra = [[DERIVED0 + 5, ["X", text, refs, tr]]]
             target = DERIVED0 + 5
-            if rng.random() < 0.15:
+            q = rng.random()
+            if q < 0.15:
                 extra.append([DERIVED0 + 6, ["B", ["b", "add", ["k", DERIVED0 + 5], ["k", STORED0]]]])
                 target = DERIVED0 + 6
+            elif q < 0.4:
+                # round 3: the ParsedComponentLink OBJECT as an operand of binary links
+                me, leaf = ["o", DERIVED0 + 5], ["k", STORED0]
+                op = rng.choice(["add", "sub", "mul"])
+                extra.append([DERIVED0 + 6, ["B", rng.choice([["b", op, me, leaf], ["b", op, leaf, me],
+                                                             ["b", op, me, me]])]])
+                if rng.random() < 0.4:
+                    extra.append([DERIVED0 + 7, ["B", ["b", "sub", ["o", DERIVED0 + 6], me]]])
+                target = rng.choice([e[0] for e in extra])
             yield {"shape": sh, "coords": coords, "stored": stored, "derived": derived + extra,
                    "view": rand_view(rng, sh), "target": target}
 
@@ -1298,6 +1402,26 @@ class HistFam(Family):
             yield {"shape": sh, "ops": st + adds + [["add_s", STORED0, ov], ["remove", keymap["c"]]]}
             yield {"shape": sh, "ops": st + adds + [["radd_d", keymap["a"], ["b", "mul", ["k", STORED0 + 1], ["c", ["i", 3]]]],
                                                     ["remove", STORED0], ["remove", PIX0]]}
+        # round 3: the same expressions with the common subtree `S0 + 1` built ONCE (share): the
+        # link object is the left / right / both operand(s) of several derived attributes
+        s0 = ["b", "add", ["k", STORED0], ["c", ["i", 1]]]
+        Y, P = ["k", STORED0 + 1], ["k", PIX0]
+        for pat, trees in (("left", [s0, ["b", "mul", s0, Y], ["b", "sub", s0, P]]),
+                           ("right", [s0, ["b", "mul", Y, s0], ["b", "sub", P, s0]]),
+                           ("tops", [["b", "mul", s0, Y], ["b", "sub", s0, P]]),
+                           ("twice", [["b", "mul", s0, s0], ["b", "add", s0, Y], s0]),
+                           ("nested", [["b", "add", s0, Y], ["b", "mul", ["b", "add", s0, Y], P],
+                                       ["b", "sub", ["b", "mul", ["b", "add", s0, Y], P], s0]])):
+            adds = [["add_d", DERIVED0 + j, t] for j, t in enumerate(trees)]
+            for shared in (True, False):
+                tails = [[["remove", v]] for v in (STORED0, STORED0 + 1, PIX0, DERIVED0, DERIVED0 + 1)]
+                tails += [[["update", o, 90], ["remove", v]] for o in (STORED0, STORED0 + 1, DERIVED0)
+                          for v in (90, STORED0 + 1)]
+                for tl in tails:
+                    c = {"shape": sh, "ops": st + adds + tl}
+                    if shared:
+                        c["share"] = True
+                    yield c
         # component orders that do not respect the dependencies (reorder_components, forward adds)
         for c in order_cases(tier):
             yield c
@@ -1315,6 +1439,11 @@ class HistFam(Family):
             live_der = []
             fresh_s, fresh_d, fresh_n = STORED0 + 1, DERIVED0, 90
             L = rng.randint(2, maxlen)
+            # round 3: in half of the histories equal subtrees of the binary expressions are ONE
+            # link object (hash-consing in Built.tree), and new expressions are built on the trees
+            # of earlier ones — left, right, twice, nested
+            share = rng.random() < 0.5
+            prev_trees = []
             for _ in range(L):
                 r = rng.random()
                 live = live_prim + live_der
@@ -1347,6 +1476,23 @@ class HistFam(Family):
                     fresh_d += 1
                 elif r < 0.42:
                     t = rand_tree(rng, rng.randint(1, 2), live, ["add", "sub", "mul"], [], consts=INT_CONSTS)
+                    if share and prev_trees and rng.random() < 0.6:
+                        pt = rng.choice(prev_trees[-3:])
+                        leaf = ["k", rng.choice(live)]
+                        q = rng.random()
+                        op = rng.choice(["add", "sub", "mul"])
+                        if q < 0.35:
+                            t = ["b", op, pt, leaf]
+                        elif q < 0.6:
+                            t = ["b", op, leaf, pt]
+                        elif q < 0.75:
+                            t = ["b", op, pt, pt]
+                        elif q < 0.9:
+                            t = ["b", op, pt, rng.choice(prev_trees)]
+                        else:
+                            t = ["b", op, ["b", "add", pt, leaf], pt]
+                        if tree_depth(t) > 4:
+                            t = ["b", op, pt[2] if pt[2][0] == "b" else pt, leaf]
                     if rng.random() < 0.04:   # reads an id that is not (or no longer) in the dataset
                         t = ["b", "add", t, ["k", 89]]
                     if t[0] != "b":
@@ -1359,6 +1505,8 @@ class HistFam(Family):
                         ops.append(["add_d", fresh_d, t])
                         if 89 not in tree_keys(t):
                             live_der.append(fresh_d)
+                            if t[0] == "b":
+                                prev_trees.append(t)
                         fresh_d += 1
                 elif r < 0.54:
                     # a derived component E added BEFORE the derived component D it reads (the
@@ -1426,11 +1574,14 @@ class HistFam(Family):
                     if rng.random() < 0.05:
                         new = old
                     ops.append(["update", old, new])
-            yield {"shape": sh, "ops": ops}
+                    # expressions over the old identifier are not re-used after update_id
+                    prev_trees = [t for t in prev_trees if old not in tree_keys(t)]
+            yield {"shape": sh, "ops": ops, "share": share} if share else {"shape": sh, "ops": ops}
 
     def run_impl(self, case):
         T = Tokens(arith=True)
         b = Built(case["shape"], None)
+        b.share = bool(case.get("share"))
         extra = {}
         steps = []
 
@@ -1505,6 +1656,10 @@ class HistFam(Family):
                     b.data.update_id(cid_of(op[1]), new)
                 except ValueError:     # F22: `new` already names another component
                     err = "value-error"
+                # link objects built before this call are rewritten in place when the data set
+                # reaches them (and are stale otherwise): the trees they were memoised under no
+                # longer describe them — later expressions are built from new objects
+                b.memo.clear()
                 sx_ops.append(["update", op[1], op[2]])
                 valued = True
             elif kind == "reorder":   # [op, listed keys, exact]
